@@ -6,11 +6,14 @@
    5. what expand_one establishes (canonical),
    6. Faithful    expanded ordinary nodes carry exactly their maximal trap spaces,
    7. all of them along runs.
-   Two transfer principles are provided:
+   Transfer principles provided here:
    - prim_closed_trap / step_transfer_trap: like DiagramStruct.prim_closed, but the
      ensure_node / ensure_edge clauses may assume that the motif is a trap space;
-   - op_transfer_plain / op_transfer: invariants that only hold at the granularity
-     of whole calls of expand_one / make_skip_node / skip_* (not of primitives). *)
+   - Section OpTransfer (B_step_op, B_step): for invariants that only hold at the
+     granularity of whole calls of expand_one / make_skip_node / skip_to_minimal /
+     skip_remaining (not of primitives);
+   - Section Compound (C_ensure_all, C_ensure_min_children, C_skip_edges) and Section
+     SkipRemaining: the inner loops that work on one fixed parent node. *)
 From Coq Require Import List Bool Arith NArith Lia Permutation.
 Import ListNotations.
 From BB Require Import BN Brute SpaceFacts TrapFacts PercolateFacts Diagram Invariants DiagramStruct.
@@ -648,29 +651,59 @@ Section OpTransfer.
     (forall d i tape, Q d -> i < size d -> Q (fst (skip_to_minimal_t N d i tape))) /\
     (forall d tape, Q d -> Q (fst (skip_remaining N d tape))).
 
-  Theorem B_step : forall fuel d o, (plain o \/ skip_ops_closed) ->
-    Q d -> Q (fst (step fuel N cfg d o)).
+  (* what has to be known about the operation o itself *)
+  Definition op_ok (o : op) : Prop :=
+    match o with
+    | OMin _ _ true tape =>
+        forall S, length S = nvars N -> negb (perm_of tape (min_traps_b N S)) = false ->
+          msn_closed true tape
+    | OSkipToMin i tape =>
+        forall d, Q d -> i < size d -> Q (fst (skip_to_minimal_t N d i tape))
+    | OSkipRemaining tape => forall d, Q d -> Q (fst (skip_remaining N d tape))
+    | _ => True
+    end.
+
+  Theorem B_step_op : forall fuel d o, op_ok o -> Q d -> Q (fst (step fuel N cfg d o)).
   Proof.
-    intros fuel d o Hps Hq. destruct o; unfold step.
+    intros fuel d o Hok Hq. destruct o; unfold step.
     - destruct (Nat.ltb i (size d)); [|exact Hq].
       pose proof (B_node_successors d i Hq) as Hq1.
       destruct (node_successors N cfg d i) as [[d1 r] succ]. exact Hq1.
     - destruct (valid_start d start); [|exact Hq]. unfold expand_bfs. apply B_bfs_loop. exact Hq.
     - destruct (valid_start d start); [|exact Hq]. unfold expand_dfs. apply B_dfs_loop. exact Hq.
     - destruct (valid_start d start) eqn:Ev; [|exact Hq]. apply B_expand_min; try assumption.
-      intros S HS Hp. destruct Hps as [Hpl|(Hm & _ & _)].
-      + simpl in Hpl. subst skip. intro Hf. discriminate Hf.
-      + destruct skip; [eapply Hm; eauto|intro Hf; discriminate Hf].
+      intros S HS Hp. destruct skip; [eapply Hok; eauto|intro Hf; discriminate Hf].
     - unfold expand_to_target. apply B_target_loop. exact Hq.
-    - destruct Hps as [[]|(_ & Hs & _)].
-      destruct (Nat.ltb i (size d)) eqn:Ei; [|exact Hq].
-      apply Hs; [exact Hq|apply Nat.ltb_lt; exact Ei].
-    - destruct Hps as [[]|(_ & _ & Hs)]. apply Hs. exact Hq.
+    - destruct (Nat.ltb i (size d)) eqn:Ei; [|exact Hq].
+      apply Hok; [exact Hq|apply Nat.ltb_lt; exact Ei].
+    - apply Hok. exact Hq.
     - simpl. apply Q_reclaim. exact Hq.
     - exact Hq.
     - destruct (Nat.ltb i (size d)); [|exact Hq]. apply B_q_cands. exact Hq.
     - destruct (Nat.ltb i (size d)); [|exact Hq]. apply B_q_seeds. exact Hq.
     - destruct (Nat.ltb i (size d)); [|exact Hq]. apply B_q_sets. exact Hq.
+  Qed.
+
+  Lemma op_ok_plain : forall o, plain o -> op_ok o.
+  Proof.
+    intros o Hpl. destruct o; simpl in *; try exact I; try contradiction.
+    subst skip. exact I.
+  Qed.
+
+  Lemma op_ok_closed : forall o, skip_ops_closed -> op_ok o.
+  Proof.
+    intros o (H1 & H2 & H3). destruct o; simpl; try exact I.
+    - destruct skip; [|exact I]. intros S HS Hp. eapply H1; eauto.
+    - intros d Hq Hi. apply H2; assumption.
+    - intros d Hq. apply H3. exact Hq.
+  Qed.
+
+  Theorem B_step : forall fuel d o, (plain o \/ skip_ops_closed) ->
+    Q d -> Q (fst (step fuel N cfg d o)).
+  Proof.
+    intros fuel d o [Hpl|Hcl] Hq; apply B_step_op; try assumption.
+    - apply op_ok_plain. exact Hpl.
+    - apply op_ok_closed. exact Hcl.
   Qed.
 End OpTransfer.
 
@@ -1025,3 +1058,1480 @@ Proof.
   apply (max_traps_b_trap N _ _ m HS) in Hin. destruct Hin as [Ht Hs].
   split; [apply trap_space_length; exact Ht|]. split; assumption.
 Qed.
+
+(* ================================================================== *)
+(* 6. compound operations on one parent node: generic loops            *)
+(* ================================================================== *)
+
+Definition traps_exp (d : sd) (traps : list (nat * space)) : Prop :=
+  forall c m, In (c, m) traps -> n_exp (get d c) = true.
+
+Lemma traps_exp_extends : forall N d d' traps,
+  extends d d' -> traps_ok N d traps -> traps_exp d traps -> traps_exp d' traps.
+Proof.
+  intros N d d' traps He Hok Hex c m Hin. destruct He as (_ & _ & H3 & _).
+  apply H3; [apply (Hok c m Hin)|apply (Hex c m Hin)].
+Qed.
+
+Section Compound.
+  Variable N : net.
+  Variable p : nat.
+  Variable I : sd -> Prop.
+  Variable G : space -> Prop.
+  Hypothesis I_swf : forall d, I d -> SWF N d.
+  Hypothesis I_p : forall d, I d -> p < size d.
+  Hypothesis I_child : forall d m, I d -> G m -> I (fst (ensure_node N d (Some p) m)).
+
+  Lemma C_ensure_all : forall subs d,
+    I d -> (forall m, In m subs -> G m) -> I (ensure_all N d p subs).
+  Proof.
+    induction subs as [|m r IH]; intros d Hi Hg; simpl; [exact Hi|].
+    apply IH.
+    - apply I_child; [exact Hi|apply Hg; left; reflexivity].
+    - intros m0 Hin. apply Hg. right. exact Hin.
+  Qed.
+
+  Hypothesis I_mark : forall d m, I d -> G m -> min_trap N m ->
+    I (mark_expanded (fst (ensure_node N d (Some p) m)) (snd (ensure_node N d (Some p) m))).
+
+  Lemma C_ensure_min_children : forall mins d,
+    I d -> (forall m, In m mins -> G m /\ min_trap N m) -> I (ensure_min_children N d p mins).
+  Proof.
+    induction mins as [|m r IH]; intros d Hi Hg; [exact Hi|].
+    unfold ensure_min_children; fold ensure_min_children.
+    pose proof (I_mark d m Hi (proj1 (Hg m (or_introl eq_refl))) (proj2 (Hg m (or_introl eq_refl))))
+      as H1.
+    destruct (ensure_node N d (Some p) m) as [d1 c]. simpl in H1.
+    apply IH; [exact H1|]. intros m0 Hin. apply Hg. right. exact Hin.
+  Qed.
+
+  Hypothesis I_edge : forall d c m, I d -> c < size d -> length m = nvars N ->
+    percolate_b N m = n_space (get d c) -> n_exp (get d c) = true ->
+    subspace m (n_space (get d p)) = true -> I (ensure_edge d p c m).
+
+  Lemma C_skip_edges : forall traps d,
+    I d -> traps_ok N d traps -> traps_exp d traps -> I (skip_edges d p traps).
+  Proof.
+    induction traps as [|[mid m] r IH]; intros d Hi Hok Hex; simpl; [exact Hi|].
+    assert (Hokr : traps_ok N d r) by (intros c0 m0 Hin; apply Hok; right; exact Hin).
+    assert (Hexr : traps_exp d r) by (intros c0 m0 Hin; apply (Hex c0 m0); right; exact Hin).
+    destruct (subspace m (n_space (get d p))) eqn:Es; [|apply IH; assumption].
+    destruct (Hok mid m (or_introl eq_refl)) as (Hmid & Hm & Hp).
+    apply IH.
+    - apply I_edge; try assumption. apply (Hex mid m). left. reflexivity.
+    - eapply traps_ok_extends; [apply ensure_edge_extends|exact Hokr].
+    - eapply traps_exp_extends; [apply ensure_edge_extends|exact Hokr|exact Hexr].
+  Qed.
+End Compound.
+
+(* ---------- skip_remaining, given what it does to one node ---------- *)
+Section SkipRemaining.
+  Variable N : net.
+  Variable Q : sd -> Prop.
+  Hypothesis Q_swf : forall d, Q d -> SWF N d.
+  Hypothesis Q_rootmark : forall d m, Q d -> min_trap N m ->
+    Q (mark_expanded (fst (ensure_node N d None m)) (snd (ensure_node N d None m))).
+  Hypothesis Q_skip1 : forall d i traps, Q d -> i < size d -> n_exp (get d i) = false ->
+    traps_ok N d traps -> traps_exp d traps ->
+    Q (upd_node (mark_expanded (skip_edges (upd_node d i clear_attr) i traps) i) i
+                (fun y => set_skip y true)).
+
+  Lemma S_ensure_roots : forall mins d acc,
+    Q d -> (forall m, In m mins -> min_trap N m) -> traps_ok N d acc -> traps_exp d acc ->
+    Q (fst (ensure_roots N d mins acc)) /\
+    traps_ok N (fst (ensure_roots N d mins acc)) (snd (ensure_roots N d mins acc)) /\
+    traps_exp (fst (ensure_roots N d mins acc)) (snd (ensure_roots N d mins acc)).
+  Proof.
+    induction mins as [|m r IH]; intros d acc Hq Hmin Hok Hex; simpl.
+    - split; [exact Hq|]. split.
+      + intros c m Hin. apply Hok. apply in_rev. exact Hin.
+      + intros c m Hin. apply (Hex c m). apply in_rev. exact Hin.
+    - assert (Hmt : min_trap N m) by (apply Hmin; left; reflexivity).
+      assert (Hm : length m = nvars N) by (apply min_trap_length; exact Hmt).
+      pose proof (Q_rootmark d m Hq Hmt) as Hq1.
+      pose proof (ensure_node_extends N d None m) as He.
+      pose proof (ensure_node_spec N d None m) as Hspec.
+      destruct (ensure_node N d None m) as [d1 c]. simpl in Hq1, He.
+      destruct (Hspec d1 c (Q_swf d Hq) Hm eq_refl) as (Hc & Hsp & _).
+      assert (He2 : extends d (mark_expanded d1 c)).
+      { eapply extends_trans; [exact He|apply mark_expanded_extends]. }
+      apply IH.
+      + exact Hq1.
+      + intros m0 Hin. apply Hmin. right. exact Hin.
+      + intros c0 m0 [Heq|Hin].
+        * injection Heq as Hcc Hmm. subst c0 m0. rewrite size_mark_expanded.
+          split; [exact Hc|]. split; [exact Hm|]. rewrite n_space_mark_expanded.
+          symmetry. exact Hsp.
+        * eapply traps_ok_extends; [exact He2|exact Hok|exact Hin].
+      + intros c0 m0 [Heq|Hin].
+        * injection Heq as Hcc Hmm. subst c0 m0. unfold mark_expanded.
+          rewrite get_upd_node_eq by exact Hc. reflexivity.
+        * eapply traps_exp_extends; [exact He2|exact Hok|exact Hex|exact Hin].
+  Qed.
+
+  Lemma S_skip_all : forall traps ids d count,
+    Q d -> traps_ok N d traps -> traps_exp d traps -> (forall i, In i ids -> i < size d) ->
+    Q (fst (skip_all d ids traps count)).
+  Proof.
+    intro traps. induction ids as [|i r IH]; intros d count Hq Hok Hex Hv; simpl; [exact Hq|].
+    assert (Hr : forall j, In j r -> j < size d) by (intros j Hin; apply Hv; right; exact Hin).
+    assert (Hi : i < size d) by (apply Hv; left; reflexivity).
+    destruct (n_exp (get d i)) eqn:Ei; [apply IH; assumption|].
+    assert (He : extends d (upd_node (mark_expanded
+                   (skip_edges (upd_node d i clear_attr) i traps) i) i
+                   (fun y => set_skip y true))).
+    { apply extends_trans with (d2 := upd_node d i clear_attr);
+        [apply upd_flag_extends; constructor|].
+      eapply extends_trans; [apply skip_edges_extends|].
+      eapply extends_trans; [apply mark_expanded_extends|].
+      apply upd_flag_extends. constructor. }
+    apply IH.
+    - apply Q_skip1; assumption.
+    - eapply traps_ok_extends; [exact He|exact Hok].
+    - eapply traps_exp_extends; [exact He|exact Hok|exact Hex].
+    - intros j Hin. eapply extends_lt; [exact He|apply Hr; exact Hin].
+  Qed.
+
+  Lemma S_skip_remaining : forall d tape, Q d -> Q (fst (skip_remaining N d tape)).
+  Proof.
+    intros d tape Hq. unfold skip_remaining.
+    destruct (negb (perm_of tape (min_traps_b N (n_space (get d 0))))) eqn:Ep; [exact Hq|].
+    assert (Hmin : forall m, In m tape -> min_trap N m).
+    { intros m Hin. eapply (tape_min_traps N (n_space (get d 0)) tape); [|exact Ep|exact Hin].
+      apply (swf_len N d (Q_swf d Hq)). apply get_In. apply (swf_size N d (Q_swf d Hq)). }
+    assert (Hnil1 : traps_ok N d []) by (intros c m []).
+    assert (Hnil2 : traps_exp d []) by (intros c m []).
+    destruct (S_ensure_roots tape d [] Hq Hmin Hnil1 Hnil2) as (Hq1 & Hok1 & Hex1).
+    destruct (ensure_roots N d tape []) as [d1 traps]. simpl in Hq1, Hok1, Hex1.
+    assert (Hv : forall i, In i (seq 0 (size d1)) -> i < size d1).
+    { intros i Hin. apply in_seq in Hin. lia. }
+    pose proof (S_skip_all traps (seq 0 (size d1)) d1 0 Hq1 Hok1 Hex1 Hv) as Hq2.
+    destruct (skip_all d1 (seq 0 (size d1)) traps 0) as [d2 k]. exact Hq2.
+  Qed.
+End SkipRemaining.
+
+(* ================================================================== *)
+(* 7. NoStubEdges                                                      *)
+(* ================================================================== *)
+
+(* while node p is being processed it may already carry out-edges *)
+Definition NSE_except (p : nat) (d : sd) : Prop :=
+  forall e, In e (sd_edges d) -> e_src e = p \/ n_exp (get d (e_src e)) = true.
+Definition NSE_inv (N : net) (p : nat) (d : sd) : Prop :=
+  SWF N d /\ p < size d /\ NSE_except p d.
+
+Lemma NSE_open : forall p d, NoStubEdges d -> NSE_except p d.
+Proof. intros p d H e Hin. right. apply H. exact Hin. Qed.
+
+Lemma NSE_close : forall p d, NSE_except p d -> n_exp (get d p) = true -> NoStubEdges d.
+Proof.
+  intros p d H Hp e Hin. destruct (H e Hin) as [Heq|He]; [rewrite Heq; exact Hp|exact He].
+Qed.
+
+Lemma NSE_except_upd : forall p d i f, flag_setter f -> NSE_except p d -> NSE_except p (upd_node d i f).
+Proof.
+  intros p d i f Hf H e Hin. rewrite sd_edges_upd_node in Hin.
+  destruct (H e Hin) as [Heq|He]; [left; exact Heq|right].
+  apply n_exp_upd_flag_mono; assumption.
+Qed.
+
+Lemma NoStubEdges_upd : forall d i f, flag_setter f -> NoStubEdges d -> NoStubEdges (upd_node d i f).
+Proof.
+  intros d i f Hf H e Hin. rewrite sd_edges_upd_node in Hin.
+  apply n_exp_upd_flag_mono; [exact Hf|]. apply H. exact Hin.
+Qed.
+
+Lemma NSE_inv_upd : forall N p d i f, flag_setter f -> NSE_inv N p d -> NSE_inv N p (upd_node d i f).
+Proof.
+  intros N p d i f Hf (H1 & H2 & H3). split; [apply upd_flag_SWF; assumption|].
+  split; [rewrite size_upd_node; exact H2|]. apply NSE_except_upd; assumption.
+Qed.
+
+Lemma NSE_except_added : forall N d d' p c m, SWF N d ->
+  sd_edges d' = edge_added d p c m ->
+  (forall j, j < size d -> n_exp (get d' j) = n_exp (get d j)) ->
+  NSE_except p d -> NSE_except p d'.
+Proof.
+  intros N d d' p c m Hswf He Hn H e Hin. rewrite He in Hin.
+  apply edge_added_In in Hin. destruct Hin as [Hin|[Hs _]]; [|left; exact Hs].
+  destruct (H e Hin) as [Heq|Hx]; [left; exact Heq|right].
+  rewrite Hn; [exact Hx|]. apply (swf_edges N d Hswf e Hin).
+Qed.
+
+Lemma NSE_inv_child : forall N p d m, NSE_inv N p d -> length m = nvars N ->
+  NSE_inv N p (fst (ensure_node N d (Some p) m)).
+Proof.
+  intros N p d m (H1 & H2 & H3) Hm.
+  destruct (ensure_child_spec N d p m H1 Hm H2) as (S1 & S2 & _ & _).
+  split; [exact S1|]. split; [eapply extends_lt; eauto|].
+  apply (NSE_except_added N d _ p (snd (ensure_node N d (Some p) m)) m H1).
+  - apply sd_edges_ensure_child.
+  - intros j Hj. apply (ensure_node_old N d (Some p) m j Hj).
+  - exact H3.
+Qed.
+
+Lemma NSE_inv_mark : forall N p d m, NSE_inv N p d -> length m = nvars N -> min_trap N m ->
+  NSE_inv N p (mark_expanded (fst (ensure_node N d (Some p) m)) (snd (ensure_node N d (Some p) m))).
+Proof.
+  intros N p d m H Hm _. unfold mark_expanded. apply NSE_inv_upd; [constructor|].
+  apply NSE_inv_child; assumption.
+Qed.
+
+Lemma NSE_inv_edge : forall N p d c m, NSE_inv N p d -> c < size d -> length m = nvars N ->
+  percolate_b N m = n_space (get d c) -> NSE_inv N p (ensure_edge d p c m).
+Proof.
+  intros N p d c m (H1 & H2 & H3) Hc Hm Hpm.
+  split; [apply ensure_edge_SWF; assumption|]. split; [rewrite size_ensure_edge; exact H2|].
+  apply (NSE_except_added N d _ p c m H1).
+  - apply sd_edges_ensure_edge.
+  - intros j _. apply n_exp_ensure_edge.
+  - exact H3.
+Qed.
+
+(* closing a compound operation on p: p is marked expanded *)
+Lemma NSE_inv_close : forall N p d, NSE_inv N p d ->
+  SWF N (mark_expanded d p) /\ NoStubEdges (mark_expanded d p).
+Proof.
+  intros N p d (H1 & H2 & H3). unfold mark_expanded.
+  split; [apply upd_flag_SWF; [constructor|exact H1]|].
+  apply (NSE_close p).
+  - apply NSE_except_upd; [constructor|exact H3].
+  - rewrite get_upd_node_eq by exact H2. reflexivity.
+Qed.
+
+Lemma NSE_inv_close_skip : forall N p d, NSE_inv N p d ->
+  SWF N (upd_node (mark_expanded d p) p (fun y => set_skip y true)) /\
+  NoStubEdges (upd_node (mark_expanded d p) p (fun y => set_skip y true)).
+Proof.
+  intros N p d H. destruct (NSE_inv_close N p d H) as [H1 H2].
+  split; [apply upd_flag_SWF; [constructor|exact H1]|].
+  apply NoStubEdges_upd; [constructor|exact H2].
+Qed.
+
+Lemma NSE_inv_start : forall N p d, SWF N d -> NoStubEdges d -> p < size d ->
+  NSE_inv N p (upd_node d p clear_attr).
+Proof.
+  intros N p d Hswf Hn Hp. apply NSE_inv_upd; [constructor|].
+  split; [exact Hswf|]. split; [exact Hp|]. apply NSE_open. exact Hn.
+Qed.
+
+Lemma expand_one_NSE : forall N cfg d i, SWF N d -> NoStubEdges d ->
+  NoStubEdges (fst (expand_one N cfg d i)).
+Proof.
+  intros N cfg d i Hswf Hn. destruct (expand_one N cfg d i) as [d' r] eqn:E. simpl.
+  apply expand_one_cases in E.
+  destruct E as [(_ & Hd & _)|[(_ & _ & Hd & _)|[(_ & _ & _ & Hd & _)|(_ & Ef & _ & Hd & _)]]];
+    subst d'.
+  - exact Hn.
+  - apply NoStubEdges_upd; [constructor|]. apply NoStubEdges_upd; [constructor|exact Hn].
+  - apply NoStubEdges_upd; [constructor|exact Hn].
+  - pose proof (not_full_valid d i Ef) as Hi.
+    assert (H1 : NSE_inv N i (ensure_all N (upd_node d i clear_attr) i
+                                (firstn (eo_k N cfg d i) (eo_all N d i)))).
+    { apply (C_ensure_all N i (NSE_inv N i) (fun m => length m = nvars N)).
+      - intros d0 m H0 Hm. apply NSE_inv_child; assumption.
+      - apply NSE_inv_start; assumption.
+      - intros m Hin. apply In_firstn_in in Hin. apply (eo_all_In N d i m Hswf Hi Hin). }
+    apply (NSE_inv_close N i _ H1).
+Qed.
+
+Lemma NSE_min_children : forall N p d mins, NSE_inv N p d ->
+  (forall m, In m mins -> min_trap N m) -> NSE_inv N p (ensure_min_children N d p mins).
+Proof.
+  intros N p d mins H Hmin.
+  apply (C_ensure_min_children N p (NSE_inv N p) (fun m => length m = nvars N)).
+  - intros d0 m H0 Hm Hmt. apply NSE_inv_mark; assumption.
+  - exact H.
+  - intros m Hin. split; [apply min_trap_length|]; apply Hmin; exact Hin.
+Qed.
+
+Lemma make_skip_node_NSE : forall N d i all_min, SWF N d -> NoStubEdges d -> i < size d ->
+  (forall m, In m all_min -> min_trap N m) ->
+  SWF N (make_skip_node N d i all_min) /\ NoStubEdges (make_skip_node N d i all_min).
+Proof.
+  intros N d i all_min Hswf Hn Hi Hmin. unfold make_skip_node.
+  destruct (n_exp (get d i)); [split; assumption|].
+  apply NSE_inv_close_skip. apply NSE_min_children.
+  - apply NSE_inv_start; assumption.
+  - intros m Hin. apply filter_In in Hin. apply Hmin. apply Hin.
+Qed.
+
+Lemma skip_to_minimal_NSE : forall N d i tape, SWF N d -> NoStubEdges d -> i < size d ->
+  SWF N (fst (skip_to_minimal_t N d i tape)) /\ NoStubEdges (fst (skip_to_minimal_t N d i tape)).
+Proof.
+  intros N d i tape Hswf Hn Hi. unfold skip_to_minimal_t.
+  destruct (n_exp (get d i)); [split; assumption|].
+  destruct (negb (perm_of tape (min_traps_b N (n_space (get d i))))) eqn:Ep; [split; assumption|].
+  assert (Hmin : forall m, In m tape -> min_trap N m).
+  { intros m Hin. eapply (tape_min_traps N (n_space (get d i)) tape); [|exact Ep|exact Hin].
+    apply (swf_len N d Hswf). apply get_In. exact Hi. }
+  pose proof (NSE_inv_start N i d Hswf Hn Hi) as H0.
+  assert (Hcommon :
+    SWF N (upd_node (mark_expanded (ensure_min_children N (upd_node d i clear_attr) i tape) i) i
+                    (fun y => set_skip y true)) /\
+    NoStubEdges (upd_node (mark_expanded (ensure_min_children N (upd_node d i clear_attr) i tape) i) i
+                    (fun y => set_skip y true))).
+  { apply NSE_inv_close_skip. apply NSE_min_children; assumption. }
+  destruct tape as [|m [|m2 r]]; simpl; try exact Hcommon.
+  destruct (eqb_space m (n_space (get d i))); simpl; [|exact Hcommon].
+  apply NSE_inv_close. exact H0.
+Qed.
+
+Lemma sd_edges_ensure_root : forall N d m, sd_edges (fst (ensure_node N d None m)) = sd_edges d.
+Proof. intros N d m. apply (sd_edges_ensure_node N d None m). Qed.
+
+Lemma ensure_root_spec : forall N d m, SWF N d -> length m = nvars N ->
+  SWF N (fst (ensure_node N d None m)) /\
+  extends d (fst (ensure_node N d None m)) /\
+  snd (ensure_node N d None m) < size (fst (ensure_node N d None m)) /\
+  n_space (get (fst (ensure_node N d None m)) (snd (ensure_node N d None m))) = percolate_b N m.
+Proof.
+  intros N d m Hswf Hm. split; [|split].
+  - apply ensure_node_SWF; try assumption. intros p0 Heq. discriminate Heq.
+  - apply ensure_node_extends.
+  - pose proof (ensure_node_spec N d None m) as Hspec.
+    destruct (ensure_node N d None m) as [d' c]. simpl.
+    destruct (Hspec d' c Hswf Hm eq_refl) as (H1 & H2 & _). auto.
+Qed.
+
+Lemma skip_remaining_NSE : forall N d tape, SWF N d -> NoStubEdges d ->
+  SWF N (fst (skip_remaining N d tape)) /\ NoStubEdges (fst (skip_remaining N d tape)).
+Proof.
+  intros N d tape Hswf Hn.
+  apply (S_skip_remaining N (fun d0 => SWF N d0 /\ NoStubEdges d0)).
+  - intros d0 [H _]. exact H.
+  - intros d0 m [H1 H2] Hmt. pose proof (min_trap_length N m Hmt) as Hm.
+    destruct (ensure_root_spec N d0 m H1 Hm) as (S1 & S2 & _ & _).
+    unfold mark_expanded. split; [apply upd_flag_SWF; [constructor|exact S1]|].
+    apply NoStubEdges_upd; [constructor|].
+    intros e Hin. rewrite sd_edges_ensure_root in Hin.
+    destruct S2 as (_ & _ & S3 & _). apply S3; [apply (swf_edges N d0 H1 e Hin)|].
+    apply H2. exact Hin.
+  - intros d0 i traps [H1 H2] Hi _ Hok Hex.
+    apply NSE_inv_close_skip.
+    apply (C_skip_edges N i (NSE_inv N i)).
+    + intros d1 c m H0 Hc Hm Hpm _ _. apply NSE_inv_edge; assumption.
+    + apply NSE_inv_start; assumption.
+    + eapply traps_ok_extends; [|exact Hok]. apply upd_flag_extends. constructor.
+    + eapply traps_exp_extends; [|exact Hok|exact Hex]. apply upd_flag_extends. constructor.
+  - split; assumption.
+Qed.
+
+Theorem init_NoStubEdges : forall N, NoStubEdges (init N).
+Proof.
+  intro N. unfold init. rewrite ensure_node_unfold.
+  unfold find_node, find_key. simpl. intros e [].
+Qed.
+
+Theorem step_NoStubEdges : forall fuel N cfg d o,
+  SWF N d -> NoStubEdges d -> NoStubEdges (fst (step fuel N cfg d o)).
+Proof.
+  intros fuel N cfg d o Hswf Hn.
+  assert (H : SWF N (fst (step fuel N cfg d o)) /\ NoStubEdges (fst (step fuel N cfg d o))).
+  { apply (B_step N cfg (fun d0 => SWF N d0 /\ NoStubEdges d0)).
+    - intros d0 [H _]. exact H.
+    - intros d0 i [H1 H2]. split; [|apply expand_one_NSE; assumption].
+      apply (expand_one_transfer N (SWF N) (prim_closed_SWF N)); exact H1.
+    - intros d0 i f [H1 H2] _ Hf. apply cache_setter_flag in Hf.
+      split; [apply upd_flag_SWF; assumption|apply NoStubEdges_upd; assumption].
+    - intros d0 [H1 H2]. split; [apply reclaim_SWF; exact H1|].
+      intros e Hin. simpl in Hin.
+      destruct (reclaim_extends d0) as (_ & _ & H3 & _).
+      apply H3; [apply (swf_edges N d0 H1 e Hin)|apply H2; exact Hin].
+    - right. split; [|split].
+      + intros tape S HS Hp _ d0 x s remaining [H1 H2] Hx He _ _.
+        apply make_skip_node_NSE; try assumption.
+        * apply (has_edge_valid N d0 x s H1 He).
+        * intros m Hin. eapply (tape_min_traps N S tape); eauto.
+      + intros d0 i tape [H1 H2] Hi. apply skip_to_minimal_NSE; assumption.
+      + intros d0 tape [H1 H2]. apply skip_remaining_NSE; assumption.
+    - split; assumption. }
+  exact (proj2 H).
+Qed.
+
+(* ================================================================== *)
+(* 8. EdgeStrict                                                       *)
+(* ================================================================== *)
+
+Lemma spaces_inj : forall N d i j, SWF N d -> i < size d -> j < size d ->
+  n_space (get d i) = n_space (get d j) -> i = j.
+Proof.
+  intros N d i j Hswf Hi Hj Heq. pose proof (swf_nodup N d Hswf) as Hnd.
+  rewrite (NoDup_nth (spaces d) []) in Hnd.
+  apply Hnd; try (rewrite length_spaces; assumption). rewrite !nth_spaces. exact Heq.
+Qed.
+
+Lemma EdgeStrict_same_shape : forall d d',
+  spaces d' = spaces d -> sd_edges d' = sd_edges d -> EdgeStrict d -> EdgeStrict d'.
+Proof.
+  intros d d' Hs He H e Hin. rewrite He in Hin. rewrite <- !nth_spaces, Hs, !nth_spaces.
+  apply H. exact Hin.
+Qed.
+
+Lemma EdgeStrict_upd : forall d i f, flag_setter f -> EdgeStrict d -> EdgeStrict (upd_node d i f).
+Proof.
+  intros d i f Hf H. apply (EdgeStrict_same_shape d); [|reflexivity|exact H].
+  apply spaces_upd_flag. exact Hf.
+Qed.
+
+Lemma strict_percolate : forall N m S, length m = nvars N ->
+  strict_subspace m S -> strict_subspace (percolate_b N m) S.
+Proof.
+  intros N m S Hm [Hsub Hne]. pose proof (percolate_b_sub N m Hm) as Hp. split.
+  - eapply subspace_trans; eauto.
+  - intro Heq. apply Hne. apply subspace_antisym; [exact Hsub|]. rewrite <- Heq. exact Hp.
+Qed.
+
+Lemma EdgeStrict_added : forall N d d' p c m, SWF N d ->
+  (forall j, j < size d -> n_space (get d' j) = n_space (get d j)) ->
+  sd_edges d' = edge_added d p c m ->
+  strict_subspace (n_space (get d' c)) (n_space (get d' p)) ->
+  EdgeStrict d -> EdgeStrict d'.
+Proof.
+  intros N d d' p c m Hswf Hsp He Hnew H e Hin. rewrite He in Hin.
+  apply edge_added_In in Hin. destruct Hin as [Hin|[Hs Hd]].
+  - destruct (swf_edges N d Hswf e Hin) as (H1 & H2 & _).
+    rewrite (Hsp _ H1), (Hsp _ H2). apply H. exact Hin.
+  - rewrite Hs, Hd. exact Hnew.
+Qed.
+
+(* while the unexpanded node p (with space S) is being processed *)
+Definition ES_inv (N : net) (p : nat) (S : space) (d : sd) : Prop :=
+  SWF N d /\ p < size d /\ n_space (get d p) = S /\ n_exp (get d p) = false /\ EdgeStrict d.
+Definition ES_guard (N : net) (S m : space) : Prop :=
+  length m = nvars N /\ strict_subspace m S.
+
+Lemma ES_inv_child : forall N p S d m, ES_inv N p S d -> ES_guard N S m ->
+  ES_inv N p S (fst (ensure_node N d (Some p) m)).
+Proof.
+  intros N p S d m (H1 & H2 & H3 & H4 & H5) [Hm Hst].
+  destruct (ensure_child_spec N d p m H1 Hm H2) as (S1 & S2 & S3 & S4).
+  pose proof (ensure_node_old N d (Some p) m p H2) as (Osp & Oex & _).
+  split; [exact S1|]. split; [eapply extends_lt; eauto|].
+  split; [rewrite Osp; exact H3|]. split; [rewrite Oex; exact H4|].
+  apply (EdgeStrict_added N d _ p (snd (ensure_node N d (Some p) m)) m H1).
+  - intros j Hj. apply (ensure_node_old N d (Some p) m j Hj).
+  - apply sd_edges_ensure_child.
+  - rewrite S4, Osp, H3. apply strict_percolate; assumption.
+  - exact H5.
+Qed.
+
+Lemma ES_inv_mark : forall N p S d m, ES_inv N p S d -> ES_guard N S m -> min_trap N m ->
+  ES_inv N p S (mark_expanded (fst (ensure_node N d (Some p) m)) (snd (ensure_node N d (Some p) m))).
+Proof.
+  intros N p S d m H Hg _. pose proof (ES_inv_child N p S d m H Hg) as (H1 & H2 & H3 & H4 & H5).
+  destruct H as (K1 & K2 & _). destruct Hg as [Hm Hst].
+  destruct (ensure_child_spec N d p m K1 Hm K2) as (_ & _ & S3 & S4).
+  assert (Hne : snd (ensure_node N d (Some p) m) <> p).
+  { intro Heq. rewrite Heq in S4. rewrite H3 in S4.
+    destruct (strict_percolate N m S Hm Hst) as [_ Hn]. apply Hn. symmetry. exact S4. }
+  unfold mark_expanded.
+  split; [apply upd_flag_SWF; [constructor|exact H1]|].
+  split; [rewrite size_upd_node; exact H2|].
+  split; [rewrite n_space_upd_flag by constructor; exact H3|].
+  split; [rewrite get_upd_node_neq by exact Hne; exact H4|].
+  apply EdgeStrict_upd; [constructor|exact H5].
+Qed.
+
+Lemma ES_inv_edge : forall N p S d c m, ES_inv N p S d -> c < size d -> length m = nvars N ->
+  percolate_b N m = n_space (get d c) -> n_exp (get d c) = true ->
+  subspace m (n_space (get d p)) = true -> ES_inv N p S (ensure_edge d p c m).
+Proof.
+  intros N p S d c m (H1 & H2 & H3 & H4 & H5) Hc Hm Hpm Hex Hsub.
+  split; [apply ensure_edge_SWF; assumption|]. split; [rewrite size_ensure_edge; exact H2|].
+  split; [rewrite n_space_ensure_edge; exact H3|]. split; [rewrite n_exp_ensure_edge; exact H4|].
+  apply (EdgeStrict_added N d _ p c m H1).
+  - intros j _. apply n_space_ensure_edge.
+  - apply sd_edges_ensure_edge.
+  - rewrite !n_space_ensure_edge. split.
+    + rewrite <- Hpm. eapply subspace_trans; [apply percolate_b_sub; exact Hm|exact Hsub].
+    + intro Heq. apply (spaces_inj N d c p H1 Hc H2) in Heq. subst c. congruence.
+  - exact H5.
+Qed.
+
+Lemma ES_inv_upd_other : forall N p S d f, flag_setter f ->
+  (forall x, n_exp (f x) = n_exp x) -> ES_inv N p S d -> ES_inv N p S (upd_node d p f).
+Proof.
+  intros N p S d f Hf Hfe (H1 & H2 & H3 & H4 & H5).
+  split; [apply upd_flag_SWF; assumption|]. split; [rewrite size_upd_node; exact H2|].
+  split; [rewrite n_space_upd_flag by exact Hf; exact H3|].
+  split; [rewrite get_upd_node_eq by exact H2; rewrite Hfe; exact H4|].
+  apply EdgeStrict_upd; assumption.
+Qed.
+
+Lemma ES_inv_start : forall N p d, SWF N d -> EdgeStrict d -> p < size d ->
+  n_exp (get d p) = false -> ES_inv N p (n_space (get d p)) (upd_node d p clear_attr).
+Proof.
+  intros N p d Hswf He Hp Hex. apply ES_inv_upd_other; [constructor|reflexivity|].
+  split; [exact Hswf|]. split; [exact Hp|]. split; [reflexivity|]. split; assumption.
+Qed.
+
+Lemma ES_inv_close : forall N p S d, ES_inv N p S d ->
+  SWF N (upd_node (mark_expanded d p) p (fun y => set_skip y true)) /\
+  EdgeStrict (upd_node (mark_expanded d p) p (fun y => set_skip y true)).
+Proof.
+  intros N p S d (H1 & _ & _ & _ & H5). unfold mark_expanded.
+  split; [apply upd_flag_SWF; [constructor|]; apply upd_flag_SWF; [constructor|exact H1]|].
+  apply EdgeStrict_upd; [constructor|]. apply EdgeStrict_upd; [constructor|exact H5].
+Qed.
+
+Lemma expand_one_ES : forall N cfg d i, SWF N d -> EdgeStrict d ->
+  EdgeStrict (fst (expand_one N cfg d i)).
+Proof.
+  intros N cfg d i Hswf He. destruct (expand_one N cfg d i) as [d' r] eqn:E. simpl.
+  apply expand_one_cases in E.
+  destruct E as [(_ & Hd & _)|[(_ & _ & Hd & _)|[(_ & _ & _ & Hd & _)|(Hex & Ef & _ & Hd & _)]]];
+    subst d'.
+  - exact He.
+  - apply EdgeStrict_upd; [constructor|]. apply EdgeStrict_upd; [constructor|exact He].
+  - apply EdgeStrict_upd; [constructor|exact He].
+  - pose proof (not_full_valid d i Ef) as Hi.
+    assert (H1 : ES_inv N i (n_space (get d i))
+                   (ensure_all N (upd_node d i clear_attr) i
+                               (firstn (eo_k N cfg d i) (eo_all N d i)))).
+    { apply (C_ensure_all N i (ES_inv N i (n_space (get d i))) (ES_guard N (n_space (get d i)))).
+      - intros d0 m H0 Hg. apply ES_inv_child; assumption.
+      - apply ES_inv_start; assumption.
+      - intros m Hin. apply In_firstn_in in Hin.
+        destruct (eo_all_In N d i m Hswf Hi Hin) as (A1 & _ & A3). split; assumption. }
+    destruct H1 as (_ & _ & _ & _ & H5). apply EdgeStrict_upd; [constructor|exact H5].
+Qed.
+
+Lemma ES_min_children : forall N p S d mins, ES_inv N p S d ->
+  (forall m, In m mins -> min_trap N m /\ subspace m S = true /\ m <> S) ->
+  ES_inv N p S (ensure_min_children N d p mins).
+Proof.
+  intros N p S d mins H Hmin.
+  apply (C_ensure_min_children N p (ES_inv N p S) (ES_guard N S)).
+  - intros d0 m H0 Hg Hmt. apply ES_inv_mark; assumption.
+  - exact H.
+  - intros m Hin. destruct (Hmin m Hin) as (A1 & A2 & A3).
+    split; [|exact A1]. split; [apply min_trap_length; exact A1|]. split; assumption.
+Qed.
+
+(* no self-loop: the space of the skipped node must not be one of the minimal traps *)
+Lemma make_skip_node_ES : forall N d i all_min, SWF N d -> EdgeStrict d -> i < size d ->
+  (forall m, In m all_min -> min_trap N m) ->
+  (n_exp (get d i) = false -> ~ In (n_space (get d i)) all_min) ->
+  SWF N (make_skip_node N d i all_min) /\ EdgeStrict (make_skip_node N d i all_min).
+Proof.
+  intros N d i all_min Hswf He Hi Hmin Hself. unfold make_skip_node.
+  destruct (n_exp (get d i)) eqn:Ex; [split; assumption|].
+  apply (ES_inv_close N i (n_space (get d i))).
+  apply ES_min_children.
+  - apply ES_inv_start; assumption.
+  - intros m Hin. apply filter_In in Hin. destruct Hin as [Hin Hsub].
+    split; [apply Hmin; exact Hin|]. split; [exact Hsub|].
+    intro Heq. subst m. apply (Hself eq_refl). exact Hin.
+Qed.
+
+(* a space that is one of its own minimal trap spaces is the only one *)
+Lemma min_traps_self : forall N S tape, length S = nvars N ->
+  In S (min_traps_b N S) -> perm_of tape (min_traps_b N S) = true -> tape = [S].
+Proof.
+  intros N S tape HS Hin Hp.
+  assert (Hall : forall T, In T (min_traps_b N S) -> T = S).
+  { intros T HT. apply (min_traps_b_spec N S T HS) in HT. destruct HT as [[Ht _] Hsub].
+    apply (min_traps_b_spec N S S HS) in Hin. destruct Hin as [[_ Hmin] _].
+    apply Hmin; assumption. }
+  assert (Hnd : NoDup (min_traps_b N S)).
+  { rewrite min_traps_b_unfold. apply NoDup_filter. unfold traps_in. apply NoDup_filter.
+    apply subspaces_of_NoDup. }
+  assert (Hone : length (min_traps_b N S) = 1).
+  { destruct (min_traps_b N S) as [|a [|b r]]; [contradiction|reflexivity|].
+    exfalso. inversion Hnd as [|? ? Hna _]. apply Hna. left.
+    rewrite (Hall a (or_introl eq_refl)). apply Hall. right. left. reflexivity. }
+  pose proof Hp as Hp0. unfold perm_of in Hp0.
+  apply andb_true_iff in Hp0. destruct Hp0 as [Hp0 _].
+  apply andb_true_iff in Hp0. destruct Hp0 as [Hlen _]. apply Nat.eqb_eq in Hlen.
+  rewrite Hone in Hlen. destruct tape as [|m [|m2 r]]; try discriminate Hlen.
+  f_equal. apply Hall. eapply perm_of_In; [exact Hp|left; reflexivity].
+Qed.
+
+Lemma skip_to_minimal_ES : forall N d i tape, SWF N d -> EdgeStrict d -> i < size d ->
+  SWF N (fst (skip_to_minimal_t N d i tape)) /\ EdgeStrict (fst (skip_to_minimal_t N d i tape)).
+Proof.
+  intros N d i tape Hswf He Hi. unfold skip_to_minimal_t.
+  destruct (n_exp (get d i)) eqn:Ex; [split; assumption|].
+  destruct (negb (perm_of tape (min_traps_b N (n_space (get d i))))) eqn:Ep; [split; assumption|].
+  assert (HS : length (n_space (get d i)) = nvars N).
+  { apply (swf_len N d Hswf). apply get_In. exact Hi. }
+  pose proof (tape_min_traps N (n_space (get d i)) tape HS Ep) as Hmin.
+  pose proof (ES_inv_start N i d Hswf He Hi Ex) as H0.
+  assert (Hself : In (n_space (get d i)) tape -> tape = [n_space (get d i)]).
+  { intro Hin. apply negb_false_iff in Ep. apply (min_traps_self N _ tape HS); [|exact Ep].
+    eapply perm_of_In; eauto. }
+  assert (Hcommon : ~ In (n_space (get d i)) tape ->
+    SWF N (upd_node (mark_expanded (ensure_min_children N (upd_node d i clear_attr) i tape) i) i
+                    (fun y => set_skip y true)) /\
+    EdgeStrict (upd_node (mark_expanded (ensure_min_children N (upd_node d i clear_attr) i tape) i) i
+                    (fun y => set_skip y true))).
+  { intro Hnin. apply (ES_inv_close N i (n_space (get d i))).
+    apply ES_min_children; [exact H0|].
+    intros m Hin. destruct (Hmin m Hin) as [A1 A2]. split; [exact A1|]. split; [exact A2|].
+    intro Heq. subst m. exact (Hnin Hin). }
+  destruct tape as [|m [|m2 r]]; simpl.
+  - apply Hcommon. intros [].
+  - destruct (eqb_space m (n_space (get d i))) eqn:Eeq; simpl.
+    + unfold mark_expanded. destruct H0 as (K1 & _ & _ & _ & K5).
+      split; [apply upd_flag_SWF; [constructor|exact K1]|].
+      apply EdgeStrict_upd; [constructor|exact K5].
+    + apply Hcommon. intros [Heq|[]]. subst m.
+      assert (Ht : eqb_space (n_space (get d i)) (n_space (get d i)) = true)
+        by (apply eqb_space_spec; reflexivity).
+      congruence.
+  - apply Hcommon. intro Hin. apply Hself in Hin. discriminate Hin.
+Qed.
+
+Lemma skip_remaining_ES : forall N d tape, SWF N d -> EdgeStrict d ->
+  SWF N (fst (skip_remaining N d tape)) /\ EdgeStrict (fst (skip_remaining N d tape)).
+Proof.
+  intros N d tape Hswf He.
+  apply (S_skip_remaining N (fun d0 => SWF N d0 /\ EdgeStrict d0)).
+  - intros d0 [H _]. exact H.
+  - intros d0 m [H1 H2] Hmt. pose proof (min_trap_length N m Hmt) as Hm.
+    destruct (ensure_root_spec N d0 m H1 Hm) as (S1 & S2 & _ & _).
+    unfold mark_expanded. split; [apply upd_flag_SWF; [constructor|exact S1]|].
+    apply EdgeStrict_upd; [constructor|].
+    intros e Hin. rewrite sd_edges_ensure_root in Hin.
+    destruct (swf_edges N d0 H1 e Hin) as (A1 & A2 & _).
+    rewrite (extends_space _ _ _ S2 A1), (extends_space _ _ _ S2 A2). apply H2. exact Hin.
+  - intros d0 i traps [H1 H2] Hi Hex Hok Htex.
+    apply (ES_inv_close N i (n_space (get d0 i))).
+    apply (C_skip_edges N i (ES_inv N i (n_space (get d0 i)))).
+    + intros d1 c m H0 Hc Hm Hpm Hce Hsub. apply ES_inv_edge; assumption.
+    + apply ES_inv_start; assumption.
+    + eapply traps_ok_extends; [|exact Hok]. apply upd_flag_extends. constructor.
+    + eapply traps_exp_extends; [|exact Hok|exact Htex]. apply upd_flag_extends. constructor.
+  - split; assumption.
+Qed.
+
+Theorem init_EdgeStrict : forall N, EdgeStrict (init N).
+Proof.
+  intro N. unfold init. rewrite ensure_node_unfold.
+  unfold find_node, find_key. simpl. intros e [].
+Qed.
+
+(* holds for every operation; the TrapNodes hypothesis is not needed *)
+Theorem step_EdgeStrict : forall fuel N cfg d o,
+  SWF N d -> TrapNodes N d -> EdgeStrict d -> EdgeStrict (fst (step fuel N cfg d o)).
+Proof.
+  intros fuel N cfg d o Hswf _ He.
+  assert (H : SWF N (fst (step fuel N cfg d o)) /\ EdgeStrict (fst (step fuel N cfg d o))).
+  { apply (B_step N cfg (fun d0 => SWF N d0 /\ EdgeStrict d0)).
+    - intros d0 [H _]. exact H.
+    - intros d0 i [H1 H2]. split; [|apply expand_one_ES; assumption].
+      apply (expand_one_transfer N (SWF N) (prim_closed_SWF N)); exact H1.
+    - intros d0 i f [H1 H2] _ Hf. apply cache_setter_flag in Hf.
+      split; [apply upd_flag_SWF; assumption|apply EdgeStrict_upd; assumption].
+    - intros d0 [H1 H2]. split; [apply reclaim_SWF; exact H1|].
+      apply (EdgeStrict_same_shape d0); [apply spaces_reclaim|reflexivity|exact H2].
+    - right. split; [|split].
+      + intros tape S HS Hp _ d0 x s remaining [H1 H2] Hx Hed Hrem Hnone.
+        destruct (has_edge_valid N d0 x s H1 Hed) as [_ Hs].
+        apply make_skip_node_ES; try assumption.
+        * intros m Hin. eapply (tape_min_traps N S tape); eauto.
+        * intros Hex Hin. destruct (Hrem _ Hin) as [Hr|(j & Hj & Hsp & Hje)].
+          -- apply has_edge_true in Hed. destruct Hed as (e & Hine & Hsrc & Hdst).
+             destruct (H2 e Hine) as [Hsub _]. rewrite Hsrc, Hdst in Hsub.
+             rewrite (Hnone _ Hr) in Hsub. discriminate Hsub.
+          -- apply (spaces_inj N d0 j s H1 Hj Hs) in Hsp. subst j. congruence.
+      + intros d0 i tape [H1 H2] Hi. apply skip_to_minimal_ES; assumption.
+      + intros d0 tape [H1 H2]. apply skip_remaining_ES; assumption.
+    - split; assumption. }
+  exact (proj2 H).
+Qed.
+
+(* ================================================================== *)
+(* 9. Rooted                                                           *)
+(* ================================================================== *)
+
+Lemma edge_added_has : forall d p c m,
+  exists e, In e (edge_added d p c m) /\ e_src e = p /\ e_dst e = c.
+Proof.
+  intros d p c m. unfold edge_added. destruct (has_edge d p c) eqn:Eh.
+  - apply has_edge_true in Eh. destruct Eh as (e & Hin & Hs & Hd).
+    destruct (add_motif_keeps p c m _ e Hin) as (e' & Hin' & Hs' & Hd' & _).
+    exists e'. split; [exact Hin'|]. split; congruence.
+  - exists {| e_src := p; e_dst := c; e_motifs := [m] |}. split; [|split; reflexivity].
+    apply in_or_app. right. left. reflexivity.
+Qed.
+
+Lemma Rooted_same_shape : forall d d',
+  size d' = size d -> sd_edges d' = sd_edges d -> Rooted d -> Rooted d'.
+Proof. intros d d' Hs He H i H0 Hi. rewrite He. apply H; [exact H0|]. rewrite <- Hs. exact Hi. Qed.
+
+Lemma Rooted_added : forall d d' p c m,
+  sd_edges d' = edge_added d p c m ->
+  (size d' = size d \/ (c = size d /\ size d' = S (size d))) ->
+  Rooted d -> Rooted d'.
+Proof.
+  intros d d' p c m He Hsz H i H0 Hi. rewrite He.
+  destruct (lt_dec i (size d)) as [Hlt|Hge].
+  - destruct (H i H0 Hlt) as (e & Hin & Hd).
+    destruct (edge_added_keeps d p c m e Hin) as (e' & Hin' & _ & Hd' & _).
+    exists e'. split; [exact Hin'|congruence].
+  - destruct Hsz as [Hsz|[Hc Hsz]]; [lia|]. assert (Hic : i = c) by lia. subst i.
+    destruct (edge_added_has d p c m) as (e & Hin & _ & Hd). exists e. auto.
+Qed.
+
+Lemma prim_Rooted_child : forall N d p m, Rooted d ->
+  Rooted (fst (ensure_node N d (Some p) m)).
+Proof.
+  intros N d p m H.
+  apply (Rooted_added d _ p (snd (ensure_node N d (Some p) m)) m).
+  - apply sd_edges_ensure_child.
+  - destruct (size_ensure_node_cases N d (Some p) m) as [[_ Hs]|(_ & Hc & Hs)]; auto.
+  - exact H.
+Qed.
+
+Lemma prim_Rooted_upd : forall d i f, Rooted d -> Rooted (upd_node d i f).
+Proof.
+  intros d i f H. apply (Rooted_same_shape d); [apply size_upd_node|reflexivity|exact H].
+Qed.
+
+Section RootedInst.
+  Variable N : net.
+  Let Q (d : sd) : Prop := SWF N d /\ Rooted d.
+
+  Lemma RI_swf : forall d, Q d -> SWF N d.
+  Proof. intros d [H _]. exact H. Qed.
+
+  Lemma RI_child : forall d p motif, Q d -> length motif = nvars N -> trap_space N motif ->
+    p < size d -> Q (fst (ensure_node N d (Some p) motif)).
+  Proof.
+    intros d p motif [H1 H2] Hm _ Hp. split; [|apply prim_Rooted_child; exact H2].
+    apply ensure_node_SWF; try assumption. intros p0 Heq. injection Heq as Heq. subst p0. exact Hp.
+  Qed.
+
+  Lemma RI_upd : forall d i f, Q d -> i < size d -> flag_setter f -> Q (upd_node d i f).
+  Proof.
+    intros d i f [H1 H2] _ Hf. split; [apply upd_flag_SWF; assumption|].
+    apply prim_Rooted_upd. exact H2.
+  Qed.
+
+  Lemma RI_reclaim : forall d, Q d -> Q (reclaim d).
+  Proof.
+    intros d [H1 H2]. split; [apply reclaim_SWF; exact H1|].
+    apply (Rooted_same_shape d); [apply size_reclaim|reflexivity|exact H2].
+  Qed.
+
+  (* every operation but skip_remaining (which creates parentless nodes) *)
+  Lemma RI_step : forall fuel cfg d o, (forall t, o <> OSkipRemaining t) ->
+    Q d -> Q (fst (step fuel N cfg d o)).
+  Proof.
+    intros fuel cfg d o Hno Hq. apply (B_step_op N cfg Q RI_swf).
+    - intros d0 i Hq0. apply (TT_expand_one N Q RI_swf RI_child RI_upd). exact Hq0.
+    - intros d0 i f Hq0 Hi Hf. apply RI_upd; [exact Hq0|exact Hi|apply cache_setter_flag; exact Hf].
+    - exact RI_reclaim.
+    - destruct o; simpl; try exact I.
+      + destruct skip; [|exact I].
+        intros S HS Hp _ d0 x s remaining Hq0 Hx He _ _.
+        apply (TT_make_skip_node N Q RI_child RI_upd); [exact Hq0| |].
+        * apply (has_edge_valid N d0 x s (RI_swf d0 Hq0) He).
+        * intros m Hin. apply min_trap_trap. eapply (tape_min_traps N S tape); eauto.
+      + intros d0 Hq0 Hi. apply (TT_skip_to_minimal N Q RI_swf RI_child RI_upd); assumption.
+      + exfalso. apply (Hno tape). reflexivity.
+    - exact Hq.
+  Qed.
+End RootedInst.
+
+Theorem init_Rooted : forall N, Rooted (init N).
+Proof.
+  intro N. unfold init. rewrite ensure_node_unfold.
+  unfold find_node, find_key. simpl. intros i H0 Hi. unfold size in Hi. simpl in Hi. lia.
+Qed.
+
+(* Rooted is preserved by every operation except skip_remaining, whose new
+   minimal-trap nodes are created without a parent and only get edges from the
+   unexpanded nodes that contain them *)
+Theorem step_Rooted_ext : forall fuel N cfg d o, SWF N d -> (forall t, o <> OSkipRemaining t) ->
+  Rooted d -> Rooted (fst (step fuel N cfg d o)).
+Proof.
+  intros fuel N cfg d o Hswf Hno Hr.
+  apply (RI_step N fuel cfg d o Hno). split; assumption.
+Qed.
+
+Theorem step_Rooted : forall fuel N cfg d o, SWF N d -> plain o ->
+  Rooted d -> Rooted (fst (step fuel N cfg d o)).
+Proof.
+  intros fuel N cfg d o Hswf Hpl Hr. apply step_Rooted_ext; try assumption.
+  intros t Heq. subst o. exact Hpl.
+Qed.
+
+(* ================================================================== *)
+(* 10. what expand_one establishes                                     *)
+(* ================================================================== *)
+
+Lemma insert_by_key_perm : forall x l, Permutation (insert_by_key x l) (x :: l).
+Proof.
+  intros x l. induction l as [|y r IH]; simpl; [apply Permutation_refl|].
+  destruct (N.leb (space_key x) (space_key y)); [apply Permutation_refl|].
+  eapply Permutation_trans; [apply perm_skip; exact IH|apply perm_swap].
+Qed.
+
+Lemma sort_by_key_perm : forall l, Permutation (sort_by_key l) l.
+Proof.
+  induction l as [|x r IH]; simpl; [apply Permutation_refl|].
+  eapply Permutation_trans; [apply insert_by_key_perm|apply perm_skip; exact IH].
+Qed.
+
+Lemma subspace_full : forall S T, is_full S = true -> subspace T S = true -> T = S.
+Proof.
+  induction S as [|o S IH]; intros [|a T] Hf Hs; simpl in *; try discriminate; [reflexivity|].
+  apply andb_true_iff in Hf. destruct Hf as [Ho Hf].
+  apply andb_true_iff in Hs. destruct Hs as [Ha Hs].
+  rewrite (IH T Hf Hs). destruct o as [v|]; [|discriminate].
+  destruct a as [w|]; [|discriminate]. apply Bool.eqb_prop in Ha. subst w. reflexivity.
+Qed.
+
+Lemma no_strict_no_max : forall N S srcs, length S = nvars N ->
+  (forall M, trap_space N M -> strict_subspace M S -> False) -> max_traps_b N S srcs = [].
+Proof.
+  intros N S srcs HS Hno. destruct (max_traps_b N S srcs) as [|M r] eqn:E; [reflexivity|].
+  exfalso. assert (Hin : In M (max_traps_b N S srcs)) by (rewrite E; left; reflexivity).
+  apply (max_traps_b_trap N S srcs M HS) in Hin. destruct Hin as [Ht Hs]. exact (Hno M Ht Hs).
+Qed.
+
+Lemma full_no_max : forall N S srcs, length S = nvars N -> is_full S = true ->
+  max_traps_b N S srcs = [].
+Proof.
+  intros N S srcs HS Hf. apply no_strict_no_max; [exact HS|].
+  intros M _ [Hsub Hne]. apply Hne. apply subspace_full; assumption.
+Qed.
+
+Lemma min_trap_no_max : forall N m srcs, min_trap N m -> max_traps_b N m srcs = [].
+Proof.
+  intros N m srcs Hm. apply no_strict_no_max; [apply min_trap_length; exact Hm|].
+  intros M Ht [Hsub Hne]. apply Hne. destruct Hm as [_ Hmin]. apply Hmin; assumption.
+Qed.
+
+Lemma NSE_out_empty : forall p d i, NSE_except p d -> i <> p -> n_exp (get d i) = false ->
+  out_edges d i = [].
+Proof.
+  intros p d i H Hne Hex. unfold out_edges.
+  destruct (filter (fun e => Nat.eqb (e_src e) i) (sd_edges d)) as [|e r] eqn:E; [reflexivity|].
+  exfalso. assert (Hin : In e (filter (fun e => Nat.eqb (e_src e) i) (sd_edges d)))
+    by (rewrite E; left; reflexivity).
+  apply filter_In in Hin. destruct Hin as [Hin Hs]. apply Nat.eqb_eq in Hs.
+  destruct (H e Hin) as [Heq|Hx]; [congruence|]. rewrite Hs in Hx. congruence.
+Qed.
+
+Lemma NoStub_out_empty : forall d i, NoStubEdges d -> n_exp (get d i) = false -> out_edges d i = [].
+Proof.
+  intros d i H Hex. unfold out_edges.
+  destruct (filter (fun e => Nat.eqb (e_src e) i) (sd_edges d)) as [|e r] eqn:E; [reflexivity|].
+  exfalso. assert (Hin : In e (filter (fun e => Nat.eqb (e_src e) i) (sd_edges d)))
+    by (rewrite E; left; reflexivity).
+  apply filter_In in Hin. destruct Hin as [Hin Hs]. apply Nat.eqb_eq in Hs.
+  pose proof (H e Hin) as Hx. rewrite Hs in Hx. congruence.
+Qed.
+
+(* ensure_all: old nodes, other out-edges, the out-motifs of the parent, new nodes *)
+Lemma ensure_all_old : forall N subs d p j, j < size d ->
+  node_eq_mod_depth (get d j) (get (ensure_all N d p subs) j).
+Proof.
+  intros N subs. induction subs as [|m r IH]; intros d p j Hj; simpl;
+    [apply node_eq_mod_depth_refl|].
+  eapply node_eq_mod_depth_trans; [apply (ensure_node_old N d (Some p) m j Hj)|].
+  apply IH. eapply extends_lt; [apply ensure_node_extends|exact Hj].
+Qed.
+
+Lemma ensure_all_out_other : forall N subs d p j, j <> p ->
+  out_edges (ensure_all N d p subs) j = out_edges d j.
+Proof.
+  intros N subs. induction subs as [|m r IH]; intros d p j Hne; simpl; [reflexivity|].
+  rewrite IH by exact Hne. apply ensure_child_out_other. exact Hne.
+Qed.
+
+Lemma ensure_all_out_motifs : forall N subs d p,
+  Permutation (out_motifs (ensure_all N d p subs) p) (out_motifs d p ++ subs).
+Proof.
+  intros N subs. induction subs as [|m r IH]; intros d p; simpl.
+  - rewrite app_nil_r. apply Permutation_refl.
+  - eapply Permutation_trans; [apply IH|].
+    replace (out_motifs d p ++ m :: r) with ((out_motifs d p ++ [m]) ++ r)
+      by (rewrite <- app_assoc; reflexivity).
+    apply Permutation_app_tail. apply ensure_child_out_motifs.
+Qed.
+
+Lemma ensure_all_new : forall N subs d p j,
+  size d <= j -> j < size (ensure_all N d p subs) ->
+  n_exp (get (ensure_all N d p subs) j) = false /\ n_skip (get (ensure_all N d p subs) j) = false.
+Proof.
+  intros N subs. induction subs as [|m r IH]; intros d p j Hle Hlt; simpl in *; [lia|].
+  destruct (lt_dec j (size (fst (ensure_node N d (Some p) m)))) as [Hj|Hj].
+  - destruct (ensure_node_new N d (Some p) m j Hle Hj) as [H1 H2].
+    destruct (ensure_all_old N r (fst (ensure_node N d (Some p) m)) p j Hj) as (_ & He & Hs & _).
+    rewrite He, Hs. auto.
+  - apply IH; [lia|exact Hlt].
+Qed.
+
+Lemma solver_len_all : forall total limit, 1 <= limit ->
+  solver_len total limit <> limit -> solver_len total limit = total.
+Proof. intros total limit H1 Hne. unfold solver_len in *. lia. Qed.
+
+Lemma out_motifs_same_edges : forall d d' j, sd_edges d' = sd_edges d -> out_motifs d' j = out_motifs d j.
+Proof. intros d d' j He. unfold out_motifs, out_edges. rewrite He. reflexivity. Qed.
+
+Lemma out_edges_same_edges : forall d d' j, sd_edges d' = sd_edges d -> out_edges d' j = out_edges d j.
+Proof. intros d d' j He. unfold out_edges. rewrite He. reflexivity. Qed.
+
+Theorem expand_one_canonical : forall N cfg d i d', SWF N d -> NoStubEdges d -> i < size d ->
+  n_exp (get d i) = false -> 1 <= max_motifs cfg ->
+  expand_one N cfg d i = (d', RUnit) ->
+  n_exp (get d' i) = true /\ n_skip (get d' i) = n_skip (get d i) /\ canonical N d' i /\
+  (forall j, j < size d -> j <> i ->
+     out_edges d' j = out_edges d j /\ n_exp (get d' j) = n_exp (get d j) /\
+     n_skip (get d' j) = n_skip (get d j)).
+Proof.
+  intros N cfg d i d' Hswf Hn Hi Hex Hmm E.
+  assert (HS : length (n_space (get d i)) = nvars N).
+  { apply (swf_len N d Hswf). apply get_In. exact Hi. }
+  pose proof (NoStub_out_empty d i Hn Hex) as Hout.
+  apply expand_one_cases in E.
+  destruct E as [(Hx & _)|[(_ & Ef & Hd & _)|[(_ & _ & _ & _ & Hr)|(_ & Ef & Hk & Hd & _)]]].
+  - congruence.
+  - subst d'.
+    assert (Hi0 : i < size (upd_node d i clear_attr)) by (rewrite size_upd_node; exact Hi).
+    split; [rewrite get_upd_node_eq by exact Hi0; reflexivity|].
+    split; [rewrite get_upd_node_eq by exact Hi0; rewrite get_upd_node_eq by exact Hi; reflexivity|].
+    split.
+    + unfold canonical. rewrite !n_space_upd_flag by constructor.
+      rewrite (out_motifs_same_edges d) by reflexivity.
+      unfold out_motifs. rewrite Hout. simpl.
+      rewrite full_no_max by assumption. apply perm_nil.
+    + intros j Hj Hne. rewrite !get_upd_node_neq by lia. split; [|split]; reflexivity.
+  - discriminate Hr.
+  - assert (Hkall : eo_k N cfg d i = length (eo_all N d i)).
+    { unfold eo_k in *. apply solver_len_all; assumption. }
+    rewrite Hkall, firstn_all in Hd. subst d'.
+    remember (upd_node d i clear_attr) as d0 eqn:Ed0.
+    assert (Hsz0 : size d0 = size d) by (rewrite Ed0; apply size_upd_node).
+    assert (Hsp0 : forall j, n_space (get d0 j) = n_space (get d j)).
+    { intro j. rewrite Ed0. apply n_space_upd_flag. constructor. }
+    assert (Hget0 : forall j, j <> i -> get d0 j = get d j).
+    { intros j Hne. rewrite Ed0. apply get_upd_node_neq. lia. }
+    assert (Hgeti0 : get d0 i = clear_attr (get d i)).
+    { rewrite Ed0. apply get_upd_node_eq. exact Hi. }
+    assert (Hed0 : sd_edges d0 = sd_edges d) by (rewrite Ed0; reflexivity).
+    clear Ed0.
+    pose proof (ensure_all_old N (eo_all N d i) d0 i) as Hold.
+    pose proof (ensure_all_out_other N (eo_all N d i) d0 i) as Hother.
+    pose proof (ensure_all_out_motifs N (eo_all N d i) d0 i) as Hmot.
+    pose proof (ensure_all_extends N (eo_all N d i) d0 i) as Hext.
+    remember (ensure_all N d0 i (eo_all N d i)) as d1 eqn:Ed1. clear Ed1.
+    assert (Hi0 : i < size d0) by (rewrite Hsz0; exact Hi).
+    assert (Hi1 : i < size d1) by (eapply extends_lt; eauto).
+    split; [rewrite get_upd_node_eq by exact Hi1; reflexivity|].
+    split.
+    { rewrite get_upd_node_eq by exact Hi1. simpl.
+      destruct (Hold i Hi0) as (_ & _ & Hs & _). rewrite Hs, Hgeti0. reflexivity. }
+    split.
+    { unfold canonical. rewrite n_space_upd_flag by constructor.
+      destruct (Hold i Hi0) as (Hsp & _). rewrite Hsp, Hsp0.
+      rewrite (out_motifs_same_edges d1) by reflexivity.
+      eapply Permutation_trans; [exact Hmot|].
+      rewrite (out_motifs_same_edges d d0) by exact Hed0.
+      unfold out_motifs at 1. rewrite Hout. simpl. apply sort_by_key_perm. }
+    intros j Hj Hne.
+    assert (Hj0 : j < size d0) by (rewrite Hsz0; exact Hj).
+    rewrite get_upd_node_neq by lia.
+    destruct (Hold j Hj0) as (_ & He & Hs & _). rewrite He, Hs, (Hget0 j Hne).
+    split; [|split; reflexivity].
+    rewrite (out_edges_same_edges d1) by reflexivity.
+    rewrite Hother by exact Hne. apply out_edges_same_edges. exact Hed0.
+Qed.
+
+Theorem expand_one_raise_unchanged : forall N cfg d i d' e,
+  expand_one N cfg d i = (d', RRaised e) ->
+  sd_edges d' = sd_edges d /\ size d' = size d /\
+  (forall j, n_exp (get d' j) = n_exp (get d j) /\ n_space (get d' j) = n_space (get d j)).
+Proof.
+  intros N cfg d i d' e E. apply expand_one_cases in E.
+  destruct E as [(_ & _ & Hr)|[(_ & _ & _ & Hr)|[(_ & _ & _ & Hd & _)|(_ & _ & _ & _ & Hr)]]];
+    try discriminate Hr.
+  subst d'. split; [reflexivity|]. split; [apply size_upd_node|].
+  intro j. destruct (get_upd_node_cases d i j clear_attr) as [Hg|(_ & _ & Hg)]; rewrite Hg;
+    split; reflexivity.
+Qed.
+
+(* ================================================================== *)
+(* 11. Faithful                                                        *)
+(* ================================================================== *)
+
+(* canonical for the expanded ordinary nodes selected by P *)
+Definition FaithfulOn (P : nat -> Prop) (N : net) (d : sd) : Prop :=
+  forall j, j < size d -> P j -> n_exp (get d j) = true -> n_skip (get d j) = false ->
+    canonical N d j.
+
+Lemma Faithful_On : forall N d, Faithful N d <-> FaithfulOn (fun _ => True) N d.
+Proof.
+  intros N d. unfold Faithful, FaithfulOn. split.
+  - intros H j Hj _. apply H. exact Hj.
+  - intros H j Hj. apply H; [exact Hj|exact I].
+Qed.
+
+Lemma canonical_same : forall N d d' j,
+  out_edges d' j = out_edges d j -> n_space (get d' j) = n_space (get d j) ->
+  canonical N d j -> canonical N d' j.
+Proof.
+  intros N d d' j Ho Hs H. unfold canonical, out_motifs in *. rewrite Ho, Hs. exact H.
+Qed.
+
+(* the diagram grows: selected old nodes keep flags, space and out-edges; new nodes are stubs *)
+Lemma FaithfulOn_grow : forall (P : nat -> Prop) N d d',
+  size d <= size d' ->
+  (forall j, j < size d -> node_eq_mod_depth (get d j) (get d' j)) ->
+  (forall j, j < size d -> P j -> out_edges d' j = out_edges d j) ->
+  (forall j, size d <= j -> j < size d' -> n_exp (get d' j) = false) ->
+  FaithfulOn P N d -> FaithfulOn P N d'.
+Proof.
+  intros P N d d' Hsz Hold Hout Hnew H j Hj HP Hex Hsk.
+  destruct (lt_dec j (size d)) as [Hlt|Hge].
+  - destruct (Hold j Hlt) as (Hsp & He & Hs & _).
+    apply (canonical_same N d); [apply Hout; assumption|exact Hsp|].
+    apply H; try assumption; congruence.
+  - rewrite Hnew in Hex by lia. discriminate Hex.
+Qed.
+
+(* a flag update at a node that is not selected *)
+Lemma FaithfulOn_upd_out : forall (P : nat -> Prop) N d i f, flag_setter f -> ~ P i ->
+  FaithfulOn P N d -> FaithfulOn P N (upd_node d i f).
+Proof.
+  intros P N d i f Hf Hni H j Hj HP Hex Hsk. rewrite size_upd_node in Hj.
+  assert (Hne : i <> j) by (intro Heq; subst j; exact (Hni HP)).
+  rewrite get_upd_node_neq in Hex, Hsk by exact Hne.
+  apply (canonical_same N d); [reflexivity|apply n_space_upd_flag; exact Hf|].
+  apply H; assumption.
+Qed.
+
+(* an update that leaves n_exp, n_skip and n_space alone *)
+Lemma FaithfulOn_upd_neutral : forall (P : nat -> Prop) N d i f, flag_setter f ->
+  (forall x, n_exp (f x) = n_exp x) -> (forall x, n_skip (f x) = n_skip x) ->
+  FaithfulOn P N d -> FaithfulOn P N (upd_node d i f).
+Proof.
+  intros P N d i f Hf He Hs H j Hj HP Hex Hsk. rewrite size_upd_node in Hj.
+  apply (canonical_same N d); [reflexivity|apply n_space_upd_flag; exact Hf|].
+  destruct (get_upd_node_cases d i j f) as [Hg|(_ & _ & Hg)]; rewrite Hg in Hex, Hsk.
+  - apply H; assumption.
+  - rewrite He in Hex. rewrite Hs in Hsk. apply H; assumption.
+Qed.
+
+(* marking a stub whose space is a minimal trap space: nothing to carry *)
+Lemma canonical_mark_min : forall N d c f, flag_setter f -> min_trap N (n_space (get d c)) ->
+  out_edges d c = [] -> canonical N (upd_node d c f) c.
+Proof.
+  intros N d c f Hf Hmin Hout. unfold canonical. rewrite n_space_upd_flag by exact Hf.
+  rewrite (out_motifs_same_edges d) by reflexivity. unfold out_motifs. rewrite Hout. simpl.
+  rewrite min_trap_no_max by exact Hmin. apply perm_nil.
+Qed.
+
+Lemma FaithfulOn_mark_min : forall (P : nat -> Prop) N d c,
+  min_trap N (n_space (get d c)) -> (n_exp (get d c) = false -> out_edges d c = []) ->
+  FaithfulOn P N d -> FaithfulOn P N (mark_expanded d c).
+Proof.
+  intros P N d c Hmin Hout H j Hj HP Hex Hsk. unfold mark_expanded in *.
+  rewrite size_upd_node in Hj.
+  destruct (Nat.eq_dec c j) as [Heq|Hne].
+  - subst j. rewrite get_upd_node_eq in Hsk by exact Hj. simpl in Hsk.
+    destruct (n_exp (get d c)) eqn:Ec.
+    + apply (canonical_same N d); [reflexivity|apply n_space_upd_flag; constructor|].
+      apply H; assumption.
+    + apply canonical_mark_min; [constructor|exact Hmin|apply Hout; reflexivity].
+  - rewrite get_upd_node_neq in Hex, Hsk by exact Hne.
+    apply (canonical_same N d); [reflexivity|apply n_space_upd_flag; constructor|].
+    apply H; assumption.
+Qed.
+
+Definition FE_inv (N : net) (p : nat) (d : sd) : Prop :=
+  NSE_inv N p d /\ FaithfulOn (fun j => j <> p) N d.
+
+Lemma FE_inv_child : forall N p d m, FE_inv N p d -> length m = nvars N ->
+  FE_inv N p (fst (ensure_node N d (Some p) m)).
+Proof.
+  intros N p d m [H1 H2] Hm. split; [apply NSE_inv_child; assumption|].
+  apply (FaithfulOn_grow (fun j => j <> p) N d).
+  - apply extends_size. apply ensure_node_extends.
+  - intros j Hj. apply ensure_node_old. exact Hj.
+  - intros j _ Hne. apply ensure_child_out_other. exact Hne.
+  - intros j Hle Hlt. apply (ensure_node_new N d (Some p) m j Hle Hlt).
+  - exact H2.
+Qed.
+
+Lemma FE_inv_mark : forall N p d m, FE_inv N p d -> length m = nvars N -> min_trap N m ->
+  FE_inv N p (mark_expanded (fst (ensure_node N d (Some p) m)) (snd (ensure_node N d (Some p) m))).
+Proof.
+  intros N p d m H Hm Hmin. pose proof (FE_inv_child N p d m H Hm) as [K1 K2].
+  destruct H as [(S1 & S2 & _) _].
+  destruct (ensure_child_spec N d p m S1 Hm S2) as (_ & _ & _ & Hsp).
+  split; [unfold mark_expanded; apply NSE_inv_upd; [constructor|exact K1]|].
+  destruct (Nat.eq_dec (snd (ensure_node N d (Some p) m)) p) as [Heq|Hne].
+  - unfold mark_expanded. apply FaithfulOn_upd_out; [constructor| |exact K2].
+    intro Hn. apply Hn. exact Heq.
+  - apply FaithfulOn_mark_min; [| |exact K2].
+    + rewrite Hsp, (min_trap_percolate N m Hmin). exact Hmin.
+    + intro Hex. destruct K1 as (_ & _ & K3). apply (NSE_out_empty p); assumption.
+Qed.
+
+Lemma FE_inv_edge : forall N p d c m, FE_inv N p d -> c < size d -> length m = nvars N ->
+  percolate_b N m = n_space (get d c) -> FE_inv N p (ensure_edge d p c m).
+Proof.
+  intros N p d c m [H1 H2] Hc Hm Hpm. split; [apply NSE_inv_edge; assumption|].
+  apply (FaithfulOn_grow (fun j => j <> p) N d).
+  - rewrite size_ensure_edge. lia.
+  - intros j _. apply get_ensure_edge.
+  - intros j _ Hne. apply ensure_edge_out_other. exact Hne.
+  - intros j Hle Hlt. rewrite size_ensure_edge in Hlt. lia.
+  - exact H2.
+Qed.
+
+Lemma FaithfulOn_weaken : forall (P P' : nat -> Prop) N d,
+  (forall j, P' j -> P j) -> FaithfulOn P N d -> FaithfulOn P' N d.
+Proof. intros P P' N d Hw H j Hj HP. apply H; [exact Hj|apply Hw; exact HP]. Qed.
+
+Lemma FE_inv_start : forall N p d, SWF N d -> NoStubEdges d -> Faithful N d -> p < size d ->
+  FE_inv N p (upd_node d p clear_attr).
+Proof.
+  intros N p d Hswf Hn Hf Hp. split; [apply NSE_inv_start; assumption|].
+  apply FaithfulOn_upd_out; [constructor|intro Hn0; apply Hn0; reflexivity|].
+  apply (FaithfulOn_weaken (fun _ => True)); [auto|]. apply Faithful_On. exact Hf.
+Qed.
+
+(* closing: what is known about p itself decides *)
+Lemma FaithfulOn_close : forall N p d, FaithfulOn (fun j => j <> p) N d ->
+  (n_exp (get d p) = true -> n_skip (get d p) = false -> canonical N d p) -> Faithful N d.
+Proof.
+  intros N p d H Hp j Hj Hex Hsk. destruct (Nat.eq_dec j p) as [Heq|Hne].
+  - subst j. apply Hp; assumption.
+  - apply H; assumption.
+Qed.
+
+Lemma FE_inv_close_skip : forall N p d, FE_inv N p d ->
+  SWF N (upd_node (mark_expanded d p) p (fun y => set_skip y true)) /\
+  NoStubEdges (upd_node (mark_expanded d p) p (fun y => set_skip y true)) /\
+  Faithful N (upd_node (mark_expanded d p) p (fun y => set_skip y true)).
+Proof.
+  intros N p d [H1 H2]. destruct (NSE_inv_close_skip N p d H1) as [K1 K2].
+  split; [exact K1|]. split; [exact K2|].
+  destruct H1 as (_ & Hp & _).
+  apply (FaithfulOn_close N p).
+  - apply FaithfulOn_upd_out; [constructor|intro Hn; apply Hn; reflexivity|].
+    unfold mark_expanded.
+    apply FaithfulOn_upd_out; [constructor|intro Hn; apply Hn; reflexivity|exact H2].
+  - intros _ Hsk. rewrite get_upd_node_eq in Hsk by (rewrite size_mark_expanded; exact Hp).
+    simpl in Hsk. discriminate Hsk.
+Qed.
+
+Lemma expand_one_Faithful : forall N cfg d i, 1 <= max_motifs cfg ->
+  SWF N d -> NoStubEdges d -> Faithful N d -> Faithful N (fst (expand_one N cfg d i)).
+Proof.
+  intros N cfg d i Hmm Hswf Hn Hf.
+  destruct (lt_dec i (size d)) as [Hi|Hge];
+    [|rewrite expand_one_beyond by lia; exact Hf].
+  destruct (expand_one N cfg d i) as [d' r] eqn:E. simpl.
+  pose proof (expand_one_canonical N cfg d i d' Hswf Hn Hi) as Hcan.
+  pose proof E as E0. apply expand_one_cases in E0.
+  destruct E0 as [(_ & Hd & _)|[(Hex & _ & Hd & Hr)|[(_ & _ & _ & Hd & _)|(Hex & Ef & _ & Hd & Hr)]]].
+  - subst d'. exact Hf.
+  - subst r. destruct (Hcan Hex Hmm E) as (_ & _ & Hc & _). subst d'.
+    apply (FaithfulOn_close N i); [|intros _ _; exact Hc].
+    apply FaithfulOn_upd_out; [constructor|intro Hn0; apply Hn0; reflexivity|].
+    apply (FE_inv_start N i d Hswf Hn Hf Hi).
+  - subst d'. apply Faithful_On.
+    apply FaithfulOn_upd_neutral; [constructor|reflexivity|reflexivity|].
+    apply Faithful_On. exact Hf.
+  - subst r. destruct (Hcan Hex Hmm E) as (_ & _ & Hc & _). subst d'.
+    apply (FaithfulOn_close N i); [|intros _ _; exact Hc].
+    apply FaithfulOn_upd_out; [constructor|intro Hn0; apply Hn0; reflexivity|].
+    assert (H1 : FE_inv N i (ensure_all N (upd_node d i clear_attr) i
+                               (firstn (eo_k N cfg d i) (eo_all N d i)))).
+    { apply (C_ensure_all N i (FE_inv N i) (fun m => length m = nvars N)).
+      - intros d0 m H0 Hm. apply FE_inv_child; assumption.
+      - apply FE_inv_start; assumption.
+      - intros m Hin. apply In_firstn_in in Hin. apply (eo_all_In N d i m Hswf Hi Hin). }
+    exact (proj2 H1).
+Qed.
+
+Lemma FE_min_children : forall N p d mins, FE_inv N p d ->
+  (forall m, In m mins -> min_trap N m) -> FE_inv N p (ensure_min_children N d p mins).
+Proof.
+  intros N p d mins H Hmin.
+  apply (C_ensure_min_children N p (FE_inv N p) (fun m => length m = nvars N)).
+  - intros d0 m H0 Hm Hmt. apply FE_inv_mark; assumption.
+  - exact H.
+  - intros m Hin. split; [apply min_trap_length|]; apply Hmin; exact Hin.
+Qed.
+
+Definition SNF (N : net) (d : sd) : Prop := SWF N d /\ NoStubEdges d /\ Faithful N d.
+
+Lemma make_skip_node_SNF : forall N d i all_min, SNF N d -> i < size d ->
+  (forall m, In m all_min -> min_trap N m) -> SNF N (make_skip_node N d i all_min).
+Proof.
+  intros N d i all_min (Hswf & Hn & Hf) Hi Hmin. unfold make_skip_node.
+  destruct (n_exp (get d i)); [split; [|split]; assumption|].
+  apply FE_inv_close_skip. apply FE_min_children.
+  - apply FE_inv_start; assumption.
+  - intros m Hin. apply filter_In in Hin. apply Hmin. apply Hin.
+Qed.
+
+Lemma skip_to_minimal_SNF : forall N d i tape, SNF N d -> i < size d ->
+  SNF N (fst (skip_to_minimal_t N d i tape)).
+Proof.
+  intros N d i tape (Hswf & Hn & Hf) Hi. unfold skip_to_minimal_t.
+  destruct (n_exp (get d i)) eqn:Ex; [split; [|split]; assumption|].
+  destruct (negb (perm_of tape (min_traps_b N (n_space (get d i))))) eqn:Ep;
+    [split; [|split]; assumption|].
+  assert (HS : length (n_space (get d i)) = nvars N).
+  { apply (swf_len N d Hswf). apply get_In. exact Hi. }
+  pose proof (tape_min_traps N (n_space (get d i)) tape HS Ep) as Hmin.
+  pose proof (FE_inv_start N i d Hswf Hn Hf Hi) as H0.
+  assert (Hcommon :
+    SNF N (upd_node (mark_expanded (ensure_min_children N (upd_node d i clear_attr) i tape) i) i
+                    (fun y => set_skip y true))).
+  { apply FE_inv_close_skip. apply FE_min_children; [exact H0|].
+    intros m Hin. apply (Hmin m Hin). }
+  destruct tape as [|m [|m2 r]]; simpl; try exact Hcommon.
+  destruct (eqb_space m (n_space (get d i))) eqn:Eeq; simpl; [|exact Hcommon].
+  apply eqb_space_spec in Eeq. subst m.
+  destruct (Hmin _ (or_introl eq_refl)) as [Hmt _].
+  destruct H0 as [K1 K2]. destruct (NSE_inv_close N i _ K1) as [C1 C2].
+  split; [exact C1|]. split; [exact C2|].
+  apply (FaithfulOn_close N i).
+  - unfold mark_expanded. apply FaithfulOn_upd_out; [constructor|intro Hn0; apply Hn0; reflexivity|].
+    exact K2.
+  - intros _ _. unfold mark_expanded. apply canonical_mark_min; [constructor| |].
+    + rewrite n_space_upd_flag by constructor. exact Hmt.
+    + rewrite (out_edges_same_edges d) by reflexivity. apply NoStub_out_empty; assumption.
+Qed.
+
+Lemma skip_remaining_SNF : forall N d tape, SNF N d -> SNF N (fst (skip_remaining N d tape)).
+Proof.
+  intros N d tape Hq. apply (S_skip_remaining N (SNF N)).
+  - intros d0 [H _]. exact H.
+  - intros d0 m (H1 & H2 & H3) Hmt. pose proof (min_trap_length N m Hmt) as Hm.
+    destruct (ensure_root_spec N d0 m H1 Hm) as (S1 & S2 & S3 & S4).
+    assert (Hn1 : NoStubEdges (fst (ensure_node N d0 None m))).
+    { intros e Hin. rewrite sd_edges_ensure_root in Hin.
+      destruct S2 as (_ & _ & S5 & _). apply S5; [apply (swf_edges N d0 H1 e Hin)|].
+      apply H2. exact Hin. }
+    split; [unfold mark_expanded; apply upd_flag_SWF; [constructor|exact S1]|].
+    split; [unfold mark_expanded; apply NoStubEdges_upd; [constructor|exact Hn1]|].
+    apply Faithful_On. apply FaithfulOn_mark_min.
+    + rewrite S4, (min_trap_percolate N m Hmt). exact Hmt.
+    + intro Hex. apply NoStub_out_empty; assumption.
+    + apply (FaithfulOn_grow (fun _ => True) N d0).
+      * apply extends_size. exact S2.
+      * intros j Hj. apply ensure_node_old. exact Hj.
+      * intros j _ _. apply out_edges_same_edges. apply sd_edges_ensure_root.
+      * intros j Hle Hlt. apply (ensure_node_new N d0 None m j Hle Hlt).
+      * apply Faithful_On. exact H3.
+  - intros d0 i traps (H1 & H2 & H3) Hi _ Hok Hex.
+    apply FE_inv_close_skip.
+    apply (C_skip_edges N i (FE_inv N i)).
+    + intros d1 c m H0 Hc Hm Hpm _ _. apply FE_inv_edge; assumption.
+    + apply FE_inv_start; assumption.
+    + eapply traps_ok_extends; [|exact Hok]. apply upd_flag_extends. constructor.
+    + eapply traps_exp_extends; [|exact Hok|exact Hex]. apply upd_flag_extends. constructor.
+  - exact Hq.
+Qed.
+
+Theorem init_Faithful : forall N, Faithful N (init N).
+Proof.
+  intro N. unfold init. rewrite ensure_node_unfold.
+  unfold find_node, find_key. simpl. intros j Hj Hex.
+  unfold size in Hj. simpl in Hj. assert (j = 0) by lia. subst j.
+  unfold get in Hex. simpl in Hex. discriminate Hex.
+Qed.
+
+Lemma SNF_step : forall fuel N cfg d o, 1 <= max_motifs cfg -> SNF N d ->
+  SNF N (fst (step fuel N cfg d o)).
+Proof.
+  intros fuel N cfg d o Hmm Hq. apply (B_step N cfg (SNF N)).
+  - intros d0 [H _]. exact H.
+  - intros d0 i (H1 & H2 & H3).
+    split; [apply (expand_one_transfer N (SWF N) (prim_closed_SWF N)); exact H1|].
+    split; [apply expand_one_NSE; assumption|apply expand_one_Faithful; assumption].
+  - intros d0 i f (H1 & H2 & H3) _ Hf.
+    split; [apply upd_flag_SWF; [apply cache_setter_flag; exact Hf|exact H1]|].
+    split; [apply NoStubEdges_upd; [apply cache_setter_flag; exact Hf|exact H2]|].
+    apply Faithful_On. apply FaithfulOn_upd_neutral.
+    + apply cache_setter_flag. exact Hf.
+    + intro x. apply cache_setter_exp. exact Hf.
+    + intro x. apply cache_setter_skip. exact Hf.
+    + apply Faithful_On. exact H3.
+  - intros d0 (H1 & H2 & H3). split; [apply reclaim_SWF; exact H1|]. split.
+    + intros e Hin. simpl in Hin. destruct (reclaim_extends d0) as (_ & _ & K & _).
+      apply K; [apply (swf_edges N d0 H1 e Hin)|apply H2; exact Hin].
+    + intros j Hj Hex Hsk. rewrite size_reclaim in Hj. rewrite get_reclaim in Hex, Hsk.
+      apply (canonical_same N d0).
+      * reflexivity.
+      * rewrite get_reclaim. destruct (n_seeds (get d0 j)); reflexivity.
+      * apply H3; [exact Hj| |]; destruct (n_seeds (get d0 j)); assumption.
+  - right. split; [|split].
+    + intros tape S HS Hp _ d0 x s remaining Hq0 Hx He _ _.
+      apply make_skip_node_SNF; [exact Hq0| |].
+      * apply (has_edge_valid N d0 x s (proj1 Hq0) He).
+      * intros m Hin. eapply (tape_min_traps N S tape); eauto.
+    + intros d0 i tape Hq0 Hi. apply skip_to_minimal_SNF; assumption.
+    + intros d0 tape Hq0. apply skip_remaining_SNF. exact Hq0.
+  - exact Hq.
+Qed.
+
+(* Faithful is preserved by every operation, skip operations included: the nodes
+   they mark expanded are either flagged n_skip or minimal trap spaces without out-edges *)
+Theorem step_Faithful_all : forall fuel N cfg d o, 1 <= max_motifs cfg ->
+  SWF N d -> NoStubEdges d -> Faithful N d -> Faithful N (fst (step fuel N cfg d o)).
+Proof.
+  intros fuel N cfg d o Hmm Hswf Hn Hf.
+  apply (SNF_step fuel N cfg d o Hmm). split; [|split]; assumption.
+Qed.
+
+Theorem step_Faithful : forall fuel N cfg d o, 1 <= max_motifs cfg ->
+  SWF N d -> NoStubEdges d -> Faithful N d -> plain o ->
+  Faithful N (fst (step fuel N cfg d o)).
+Proof.
+  intros fuel N cfg d o Hmm Hswf Hn Hf _. apply step_Faithful_all; assumption.
+Qed.
+
+(* ================================================================== *)
+(* 11b. two remarks on the skip operations                             *)
+(* ================================================================== *)
+
+(* make_skip_node on its own does create a self-loop when the skipped stub is itself
+   one of the minimal trap spaces (Python: `assert sd.node_is_minimal(m_id)` would
+   fail); make_skip_node_ES needs its last hypothesis.  Inside expand_min the case is
+   excluded (see step_EdgeStrict): the space of an unexpanded node is still in
+   `remaining` and lies inside the space of its parent. *)
+Lemma ensure_min_children_self_loop : forall N i S mins d,
+  SWF N d -> i < size d -> n_space (get d i) = S -> In S mins ->
+  (forall m, In m mins -> length m = nvars N) ->
+  has_edge (ensure_min_children N d i mins) i i = true.
+Proof.
+  intros N i S mins. induction mins as [|m r IH]; intros d Hswf Hi HS Hin Hlen; [contradiction|].
+  unfold ensure_min_children; fold ensure_min_children.
+  assert (Hm : length m = nvars N) by (apply Hlen; left; reflexivity).
+  destruct (ensure_child_spec N d i m Hswf Hm Hi) as (S1 & S2 & S3 & S4).
+  pose proof (sd_edges_ensure_child N d i m) as Hed.
+  destruct (ensure_node N d (Some i) m) as [d1 c] eqn:E. simpl in *.
+  pose proof (mark_expanded_extends d1 c) as He1.
+  destruct (eqb_space m S) eqn:Eeq.
+  - apply eqb_space_spec in Eeq. subst m.
+    assert (Hc : c = i).
+    { assert (Hp : percolate_b N S = S).
+      { rewrite <- HS. apply (swf_closed N d Hswf). apply get_In. exact Hi. }
+      rewrite Hp in S4.
+      apply (spaces_inj N d1 c i S1 S3); [eapply extends_lt; eauto|].
+      rewrite S4, (extends_space d d1 i S2 Hi). symmetry. exact HS. }
+    subst c.
+    eapply has_edge_extends; [apply ensure_min_children_extends|].
+    eapply has_edge_extends; [exact He1|].
+    apply has_edge_true. destruct (edge_added_has d i i S) as (e & Hine & Hs & Hd).
+    exists e. rewrite Hed. auto.
+  - apply IH.
+    + unfold mark_expanded. apply upd_flag_SWF; [constructor|exact S1].
+    + rewrite size_mark_expanded. eapply extends_lt; eauto.
+    + rewrite n_space_mark_expanded, (extends_space d d1 i S2 Hi). exact HS.
+    + destruct Hin as [Heq|Hin]; [|exact Hin]. subst m.
+      rewrite (proj2 (eqb_space_spec S S) eq_refl) in Eeq. discriminate Eeq.
+    + intros m0 Hm0. apply Hlen. right. exact Hm0.
+Qed.
+
+Lemma make_skip_node_self_loop : forall N d i all_min, SWF N d -> i < size d ->
+  n_exp (get d i) = false -> In (n_space (get d i)) all_min ->
+  (forall m, In m all_min -> length m = nvars N) ->
+  has_edge (make_skip_node N d i all_min) i i = true.
+Proof.
+  intros N d i all_min Hswf Hi Hex Hin Hlen. unfold make_skip_node. rewrite Hex.
+  eapply has_edge_extends.
+  { eapply extends_trans; [apply mark_expanded_extends|apply upd_flag_extends; constructor]. }
+  apply (ensure_min_children_self_loop N i (n_space (get d i))).
+  - apply upd_flag_SWF; [constructor|exact Hswf].
+  - rewrite size_upd_node. exact Hi.
+  - apply n_space_upd_flag. constructor.
+  - apply filter_In. split; [exact Hin|apply subspace_refl].
+  - intros m Hm. apply filter_In in Hm. apply Hlen. apply Hm.
+Qed.
+
+(* Rooted is not preserved by skip_remaining from SWF and Rooted alone: one self-
+   regulating variable, the root marked expanded without successors; the two
+   minimal trap spaces are created without a parent and nobody links to them. *)
+Definition cx_net : net := [fun s => nth 0 s false].
+Definition cx_sd : sd :=
+  {| sd_nodes := [{| n_space := [None]; n_depth := 0; n_exp := true; n_skip := false;
+                     n_parent := None; n_cands := None; n_seeds := None; n_sets := None |}];
+     sd_edges := [] |}.
+Definition cx_tape : list space := [[Some false]; [Some true]].
+
+Lemma Rooted_skip_remaining_counterexample :
+  SWF cx_net cx_sd /\ Rooted cx_sd /\ snd (skip_remaining cx_net cx_sd cx_tape) = RNat 0 /\
+  ~ Rooted (fst (skip_remaining cx_net cx_sd cx_tape)).
+Proof.
+  split; [|split; [|split]].
+  - constructor.
+    + unfold size. simpl. lia.
+    + intros x [Heq|[]]. subst x. reflexivity.
+    + unfold spaces. simpl. constructor; [intros []|constructor].
+    + intros e [].
+    + simpl. constructor.
+    + intros x [Heq|[]]. subst x. vm_compute. reflexivity.
+    + intros e m [].
+  - intros i H0 Hi. unfold size in Hi. simpl in Hi. lia.
+  - vm_compute. reflexivity.
+  - intro H. destruct (H 1) as (e & Hin & _); [lia|vm_compute; lia|].
+    vm_compute in Hin. exact Hin.
+Qed.
+
+(* ================================================================== *)
+(* 12. everything together along runs                                  *)
+(* ================================================================== *)
+
+Definition AllInv (N : net) (d : sd) : Prop :=
+  SWF N d /\ TrapNodes N d /\ EdgeStrict d /\ NoStubEdges d /\ Rooted d /\ Faithful N d.
+
+Lemma init_AllInv : forall N, AllInv N (init N).
+Proof.
+  intro N. split; [apply init_SWF|]. split; [apply init_TrapNodes|].
+  split; [apply init_EdgeStrict|]. split; [apply init_NoStubEdges|].
+  split; [apply init_Rooted|apply init_Faithful].
+Qed.
+
+Lemma step_AllInv : forall fuel N cfg d o, 1 <= max_motifs cfg -> plain o ->
+  AllInv N d -> AllInv N (fst (step fuel N cfg d o)).
+Proof.
+  intros fuel N cfg d o Hmm Hpl (H1 & H2 & H3 & H4 & H5 & H6).
+  split; [apply step_SWF; exact H1|]. split; [apply step_TrapNodes; assumption|].
+  split; [apply step_EdgeStrict; assumption|]. split; [apply step_NoStubEdges; assumption|].
+  split; [apply step_Rooted; assumption|apply step_Faithful; assumption].
+Qed.
+
+Lemma run_invariants_from : forall fuel N cfg h d0 d r, 1 <= max_motifs cfg -> Forall plain h ->
+  AllInv N d0 -> In (d, r) (run fuel N cfg d0 h) -> AllInv N d.
+Proof.
+  intros fuel N cfg h. induction h as [|o h IH]; intros d0 d r Hmm Hpl H0 Hin; simpl in Hin;
+    [contradiction|].
+  inversion Hpl as [|? ? Ho Hh]; subst.
+  pose proof (step_AllInv fuel N cfg d0 o Hmm Ho H0) as H1.
+  destruct (step fuel N cfg d0 o) as [d1 x]. simpl in H1.
+  destruct Hin as [Heq|Hin].
+  - injection Heq as Hd Hr. subst d. exact H1.
+  - eapply IH; eauto.
+Qed.
+
+Theorem run_invariants : forall fuel N cfg h d r, 1 <= max_motifs cfg -> Forall plain h ->
+  In (d, r) (run fuel N cfg (init N) h) ->
+  SWF N d /\ TrapNodes N d /\ EdgeStrict d /\ NoStubEdges d /\ Rooted d /\ Faithful N d.
+Proof.
+  intros fuel N cfg h d r Hmm Hpl Hin.
+  apply (run_invariants_from fuel N cfg h (init N) d r Hmm Hpl (init_AllInv N) Hin).
+Qed.
+
+Print Assumptions step_transfer_trap.
+Print Assumptions step_TrapNodes.
+Print Assumptions step_EdgeStrict.
+Print Assumptions step_NoStubEdges.
+Print Assumptions step_Rooted_ext.
+Print Assumptions expand_one_canonical.
+Print Assumptions step_Faithful.
+Print Assumptions step_Faithful_all.
+Print Assumptions run_invariants.
